@@ -79,7 +79,7 @@ def gen(rng):
         p = os.path.join(base, d, nm) if d else os.path.join(base, nm)
         if p in extra:
             continue
-        extra[p] = {"t": "f", "mode": rng.choice([0o644, 0o644, 0o600, 0o755]), "data": stmt(mk())}
+        extra[p] = {"t": "f", "mode": rng.choice([0o644, 0o644, 0o600, 0o755, 0o444, 0o555, 0o400]), "data": stmt(mk())}
         if d.startswith("d.rs"):
             tags.add("dir_named_rs")
         if d.count("/") >= 3:
